@@ -40,8 +40,9 @@ class InfraError(Exception):
   """Infrastructure failure: exit 2, never a verdict."""
 
 
-class CaseTimeout(Exception):
-  pass
+class CaseTimeout(BaseException):
+  """Raised by the per-case watchdog. A BaseException so that a harness's own `except Exception`
+  around library calls cannot mistake it for an outcome of the library."""
 
 
 # ------------------------------------------------------------------------------------------
@@ -339,8 +340,12 @@ def _worker_init(prop):
 
 def _run_one(case):
   prop = _WORKER_PROP
+  # The watchdog counts CPU time of this process (ITIMER_PROF), so that a loaded machine cannot
+  # turn a slow case into a spurious time-out; a much longer wall-clock limit catches blocking.
+  signal.signal(signal.SIGPROF, _alarm)
   signal.signal(signal.SIGALRM, _alarm)
-  signal.setitimer(signal.ITIMER_REAL, prop.case_timeout_s)
+  signal.setitimer(signal.ITIMER_PROF, prop.case_timeout_s)
+  signal.setitimer(signal.ITIMER_REAL, max(20 * prop.case_timeout_s, 300))
   try:
     out = prop.impl(case)
   except CaseTimeout:
@@ -357,6 +362,7 @@ def _run_one(case):
       out = {'harness_exception': '%s: %s' % (type(e).__name__, e),
              'trace': traceback.format_exc()[-1500:]}
   finally:
+    signal.setitimer(signal.ITIMER_PROF, 0)
     signal.setitimer(signal.ITIMER_REAL, 0)
   return out
 
